@@ -183,6 +183,9 @@ class MuxSocketTransportSink(ClientMessageSink):
     try:
       self._log.debug('Opening transport.')
       self._socket.open()
+      if not self.isActive:
+        # Closed while the connect was in progress (or before it started).
+        raise Exception('Transport shut down while opening.')
       self._greenlets.append(self._SpawnNamedGreenlet('Recv Loop', self._RecvLoop))
       self._greenlets.append(self._SpawnNamedGreenlet('Send Loop', self._SendLoop))
 
@@ -198,7 +201,14 @@ class MuxSocketTransportSink(ClientMessageSink):
       self._log.error('Exception opening socket')
       if self._open_result:
         self._open_result.set_exception(e)
-      self._Shutdown('Open failed')
+      if self.isActive:
+        self._Shutdown('Open failed')
+      else:
+        # Shut down (closed, or failed) while this open was still in progress:
+        # _Shutdown has already run, release what the open created since.
+        self._socket.close()
+        [g.kill(block=False) for g in self._greenlets]
+        self._greenlets = []
       raise
 
   @abstractmethod
